@@ -233,7 +233,10 @@ def run(ctx):
         present = []
         dfuts = []
         for d in ALL_DEFECTS:
-            n = sd.derive('RollLogCover_r1', f'Defect_{d}', defects=[d], props=True, emit=False)
+            # every switch on (the labels then mean what they mean for the code), the other deviation kept out of
+            # the way: the refresh_skip counterexample is searched among histories with strictly increasing names
+            n = sd.derive('RollLogCover_r1', f'Defect_{d}', defects=[d] if d == 'overwrite' else ALL_DEFECTS,
+                          props=True, emit=False, extra='' if d == 'overwrite' else 'ACTION_CONSTRAINT MonoNames\n')
             dfuts.append((d, n, tpool.submit(run_tlc, sd.d, n, 'RollLogCover', workers=nw, timeout=1200)))
         for d, n, fut in dfuts:
             res = fut.result()
